@@ -61,23 +61,25 @@ def run(ctx):
              "is_for_parse holds when remove_spaces_before_parse is set")
     ide = f.hir_fn("idealize_env", module="impl_lexical::parser")
     ctx.fn(ide)
-    m = [n for n in hir.walk(ide["body"]) if n.get("k") == "Match"]
+    # the test on remove_spaces_before_parse in any spelling (`match b {true, false}`, `if b {..} else {..}`, negated with exchanged branches)
     ok = False
-    if m:
-        sc = field_path(m[-1]["scrut"])
-        ok = sc is not None and sc[-1] == "remove_spaces_before_parse"
-        for v, arm, pat in hir.arms_by_variant(m[-1]):
-            if v is True:
-                fl = hir.find_calls(arm["body"], "filter")
-                okk = len(fl) == 1
-                if okk:
-                    c = strip(fl[0]["args"][0])
-                    okk = c["k"] == "Closure"
-                    if okk:
-                        b = strip(c["body"])
-                        okk = b["k"] == "Unary" and b["op"] == "!" and strip(b["e"])["k"] == "Call" and \
-                            (field_path(strip(b["e"])["f"]) or ("",))[-1] == "is_for_parse"
-                ok = ok and okk
+    for n in hir.walk(ide["body"]):
+        br = hir.as_branch(n) if n.get("k") in ("If", "Match") else None
+        if not br:
+            continue
+        sc = field_path(br[0])
+        if sc is None or sc[-1] != "remove_spaces_before_parse" or br[1] is None:
+            continue
+        fl = hir.find_calls(br[1], "filter")
+        okk = len(fl) == 1
+        if okk:
+            c = strip(fl[0]["args"][0])
+            okk = c["k"] == "Closure"
+            if okk:
+                b = strip(c["body"])
+                okk = b["k"] == "Unary" and b["op"] == "!" and strip(b["e"])["k"] == "Call" and \
+                    (field_path(strip(b["e"])["f"]) or ("",))[-1] == "is_for_parse"
+        ok = okk
     ctx.ob("W-LEX", "idealize_env drops every is_for_parse char when remove_spaces_before_parse", ok, "")
     entries = 0
     for p, it in f.hir.items():
